@@ -14,3 +14,4 @@ import Carapace.Props.C09
 import Carapace.Props.C14
 import Carapace.Props.C15
 import Carapace.Props.C19
+import Carapace.Props.C16
